@@ -28,6 +28,8 @@ impl EventSource for RawIoBlock<'_> {
         let handle = co_get_handle(&co);
         let io_data = self.io_data;
         io_data.co.store(co);
+        #[cfg(may_verif)]
+        may_queue::verif::point(may_queue::verif::site::IO_WAITIO_SUB_STORED, 0);
         // there is event, re-run the coroutine
         if io_data.io_flag.load(Ordering::Acquire) != 0 {
             #[allow(clippy::needless_return)]
